@@ -9,7 +9,10 @@ import (
 	"encoding/json"
 	"fmt"
 	"os"
+	"sync"
 )
+
+var resMu sync.Mutex
 
 // Violation is one observed departure of the real code from the specification.
 type Violation struct {
@@ -32,6 +35,24 @@ type Result struct {
 }
 
 func (r *Result) count(k string, n int) {
+	resMu.Lock()
+	defer resMu.Unlock()
+	r.countLocked(k, n)
+}
+
+func (r *Result) inconclusive(s string) {
+	resMu.Lock()
+	r.Inconclusive = append(r.Inconclusive, s)
+	resMu.Unlock()
+}
+
+func (r *Result) note(s string) {
+	resMu.Lock()
+	r.Notes = append(r.Notes, s)
+	resMu.Unlock()
+}
+
+func (r *Result) countLocked(k string, n int) {
 	if r.Counters == nil {
 		r.Counters = map[string]int{}
 	}
@@ -39,10 +60,12 @@ func (r *Result) count(k string, n int) {
 }
 
 func (r *Result) violate(sig, what string, replay any) {
+	resMu.Lock()
+	defer resMu.Unlock()
 	if len(r.Violations) < 200 {
 		r.Violations = append(r.Violations, Violation{sig, what, replay})
 	}
-	r.count("violations", 1)
+	r.countLocked("violations", 1)
 }
 
 func (r *Result) write(path string) {
